@@ -99,6 +99,8 @@ def err_kind(e):
         if "Removed too many" in s:
             return "removedTooMany"
         return "individualException:" + s[:40]
+    if type(e).__name__ == "NonTermination":
+        return "nonTermination"
     return "exc:" + type(e).__name__
 
 
@@ -113,27 +115,43 @@ def res_indiv(fn, tk):
 # ---- recording RNG ----------------------------------------------------------------------------------
 
 
+class NonTermination(Exception):
+    """raised by the recording generator when a random constructor has created / consulted generators far more often than any terminating
+    run does (a constructor that loops forever keeps drawing or re-seeding): turns a hang into a reportable outcome"""
+
+
 class Recorder:
     """replaces the name `Random` in circuit_layer / individual by a subclass that records `choice` and `sample`
     (values are unchanged: the subclass only observes)"""
+
+    BUDGET = 200000
 
     def __init__(self):
         self.coins = []
         self.pairs = []
         self.seeds = []
+        self.uses = 0
         rec = self
+
+        def spend():
+            rec.uses += 1
+            if rec.uses > Recorder.BUDGET:
+                raise NonTermination(f"more than {Recorder.BUDGET} generator uses in one constructor call")
 
         class RecRandom(pyrandom.Random):
             def __init__(s, seed=None):
                 super().__init__(seed)
                 rec.seeds.append(seed)
+                spend()
 
             def choice(s, seq):
+                spend()
                 r = super().choice(seq)
                 rec.coins.append(r.name == "ROTATION")
                 return r
 
             def sample(s, population, k, **kw):
+                spend()
                 r = super().sample(population, k, **kw)
                 rec.pairs.append([r[0], r[1]])
                 return r
@@ -189,7 +207,17 @@ def handmade_layer(rng, n, kind=None):
     return EVQECircuitLayer(n, tuple(gates))
 
 
+def guarded(fn):
+    """run a random constructor under the recording generator's non-termination guard"""
+    with Recorder():
+        return fn()
+
+
 def gen_individual(rng, max_qubits=6, max_layers=6, wild=True):
+    return guarded(lambda: _gen_individual(rng, max_qubits, max_layers, wild))
+
+
+def _gen_individual(rng, max_qubits=6, max_layers=6, wild=True):
     mode = rng.randrange(10)
     if mode <= 4:
         n = rng.choice([1, 1, 2, 2, 3, 3, 4, 5, 6][: max(2, max_qubits + 3)])
